@@ -39,20 +39,21 @@ SPEC = dict(
     rule=("one run = one tape: stratum (layer A / B), relay limits (default, 15 s, unlimited), security (insecure / noise), initial "
           "connections (limited only, none, direct only, both), B's initial reachability or the firewall modes of A and B, link "
           "latencies, direct-dial timeout, whether A knows B's direct address, whether relay addresses are advertised for hole "
-          "punching, service wiring, whether A holds a reservation too, 1-4 callers x 1-3 calls (API, option set, pause, deadline, dial-peer timeout, cancellation "
+          "punching, service wiring, whether A holds a reservation too, the names A knows for B (literal addresses, /dnsaddr names that "
+          "a scripted resolver expands to B's circuit or direct address, /dns4 names of relay and B), 1-4 callers x 1-3 calls (API, option set, pause, deadline, dial-peer timeout, cancellation "
           "instant), 0-2 environment tasks x 1-6 steps, sampling pace, and the schedule; non-trivial = at least one call was made, "
           "at least one quiescent reading was accepted and A saw at least one connection to B; distinct = distinct (scheduler "
           "decision hash, connection list, per-call outcome, Connectedness readings, event sequence, hole-punch event sequence)"),
     probes=["waiter-released-by-direct-conn", "waiter-cancelled-or-timed-out", "direct-conn-vanished-before-waiter-woke",
             "stream-on-limited-conn-allowed", "force-direct-succeeded", "quiescent-limited-only", "quiescent-both",
-            "inbound-limited-conn-on-A", "hole-punch-attempted", "hole-punch-succeeded", "hole-punch-failed", "holepunch-direct-dial-succeeded",
+            "inbound-limited-conn-on-A", "dnsaddr-expanded-to-relay-address", "hole-punch-attempted", "hole-punch-succeeded", "hole-punch-failed", "holepunch-direct-dial-succeeded",
             "holepunch-direct-dial-failed", "holepunch-protocol-error", "dcutr-stream-on-direct-conn"],
     real=["ALL of the following run as tasks of the seeded scheduler (instrumented)", "swarm (conns, waiter list, dial worker, dial sync, "
           "connectedness, emitter)", "basic host (NewStream, Connect), identify", "circuitv2 relay service and client transport "
           "(Reserve, dial, stop handler, limited flag)", "holepunch service and hole puncher (dcutr exchange, direct dial, retries, tracer)",
           "tcp transport dial path, upgrader + listener, noise / insecure, multistream-select, yamux", "pstoremem, eventbus"],
     stubs=["wire: simnet TCP model", "stateful firewall predicate (inbound accepted only from an IP dialled within the last 2 s)",
-           "recording wrappers that only delegate: connection gater, circuit transport Dial, host handed to the hole punching service"],
+           "scripted MultiaddrDNSResolver on A (dnsaddr / dns4 names of B and the relay)", "recording wrappers that only delegate: connection gater, circuit transport Dial, host handed to the hole punching service"],
     assume=["virtual clock of testing/synctest", "no process stalls (timing oracles use 1 s slack)",
             "zero virtual time passes between a connection becoming unusable and its Disconnected notification"],
 )
